@@ -72,7 +72,7 @@ func (w *World) credentialFor(o *Obs, pid string, c *c01Oracle) (string, bool) {
 		return k, true
 	}
 	// remember-me cookie (only consulted without a session user)
-	if w.Cfg.hasModule("remember") && !w.Cfg.hasSetup("expire") && o.uidBefore() == "" {
+	if w.rememberActive() && o.uidBefore() == "" {
 		if p := o.presented("cookie"); p != nil && p.Known != nil && p.Known.Acct == a && a >= 0 && usable(p.Status) {
 			return "rm", true
 		}
